@@ -55,7 +55,6 @@ DT = sl.DT_END
 # all scratch directories live on tmpfs when there is one: thousands of create / truncate / delete cycles on a
 # disk-backed /tmp cost seconds each under load, and nothing here needs a real disk
 SHM = "/dev/shm" if os.path.isdir("/dev/shm") and os.access("/dev/shm", os.W_OK) else None
-DEBUG = bool(os.environ.get("C04_DEBUG"))
 
 # ----------------------------------------------------------------------------- plugin graphs
 PLAN3 = [(0, 10, [(1, 3, 0), (4, 6, 1)]), (10, 20, [(12, 14, 2)]), (20, 30, [])]
@@ -478,6 +477,13 @@ def parse_extra(ops):
     return (first or 0), chunks
 
 
+def fault_fired(step, ft):
+    """did the run reach the addressed operation?"""
+    if step["outcome"] == "died":
+        return True
+    return any(o["res"] == "exc" for o in step["trace"]) if ft["kind"] == "exc" else False
+
+
 def fault_global_index(trace):
     for o in trace:
         if o["res"] == "exc":
@@ -492,7 +498,7 @@ def model_index(model_ops, role, j):
             n += 1
             if n == j:
                 return i
-    raise RuntimeError(f"address {role}{j} not in the model's op list")
+    return None         # the model's protocol has no such operation: compared as a fault-free attempt
 
 
 def token(scen, fault="none", es=0, extra=(), abandoned=0, show=""):
@@ -516,14 +522,20 @@ def attempt_spec(scen, key, step, base_ops_model, faulted_here, show):
         kind = ft["kind"]
         if faulted_here:
             if not scen["det"]:
-                k = model_index(base_ops_model, ft["role"], ft["j"])
+                k = model_index(base_ops_model, ft["role"], ft["j"]) if fault_fired(step, ft) else None
+            elif not fault_fired(step, ft):
+                k = None
             elif kind == "die_before":
                 k = len(ops)
             elif kind == "die_after":
                 k = len(ops) - 1
             else:
-                k = next(i for i, o in enumerate(obs) if o["res"] == "exc")
-            if kind == "exc":
+                k = next((i for i, o in enumerate(obs) if o["res"] == "exc"), None)
+            if k is None:
+                # the addressed operation was never issued (the code under test has a different op list):
+                # the model is asked for the fault-free attempt and the comparison will show the difference
+                fault = "none"
+            elif kind == "exc":
                 fault = f"exc@{k}"
                 if scen["det"]:
                     tail = ops[k + 1:]
